@@ -101,6 +101,8 @@ JoinLeaves(x, y) ==
      CmpC("ne", At(x, "n"), At(y, "n")),
      InC(At(x, "n"), At(y, "items"), "in_"),
      CmpC("ge", At(y, "m"), At(x, "m")),
+     PredC("p_eq", <<x, y>>, "fn"),            \* a predicate on the variables themselves (the same argument objects at every call)
+     PredC("p_eq", <<At(x, "ref"), y>>, "fn"),
      PredC("p_lt", <<At(x, "m"), At(y, "n")>>, "fn"),
      CmpC("ne", y, At(x, "ref")),
      CmpC("le", At(At(x, "ref"), "n"), At(y, "m")),
@@ -113,7 +115,7 @@ Some(s, n) == SubSeq(s, 1, IF n < Len(s) THEN n ELSE Len(s))
 LeavesG2(nv) ==
   LET pairs == IF nv = 2 THEN << <<1, 2>>, <<2, 1>> >>
                ELSE << <<1, 2>>, <<2, 3>>, <<1, 3>>, <<2, 1>>, <<3, 1>> >>
-  IN Cat([p \in 1..Len(pairs) |-> Some(JoinLeaves(V(pairs[p][1]), V(pairs[p][2])), IF p <= 2 THEN 12 ELSE 4)])
+  IN Cat([p \in 1..Len(pairs) |-> Some(JoinLeaves(V(pairs[p][1]), V(pairs[p][2])), IF p <= 2 THEN 14 ELSE 4)])
      \o Cat([i \in 1..nv |-> Some(CoreLeaves(V(i)), 5)])
 
 (* ---- G3: universal quantification.  x = V(1) is free, u = V(2) is the ----*)
@@ -149,10 +151,14 @@ OuterG3 == << CmpC("ge", At(V(1), "n"), LitI(1)), CmpC("eq", At(V(1), "m"), LitI
 
 (* ---- G7: flatten.  x = V(1); the flattened expression is slot Flat(1) ----*)
 FlatSources(kind) == IF kind = "int" THEN << At(V(1), "items"), At(V(1), "t"), At(V(1), "n") >>
+                     ELSE IF kind = "opt" THEN << At(V(1), "o"), At(V(1), "items") >>      \* o: a scalar that is None or an int
                      ELSE << At(V(1), "refs"), At(V(1), "ref") >>
 LeavesG7(kind) ==
   LET x == V(1)  f == Flat(1) IN
-  (IF kind = "int"
+  (IF kind = "opt"       \* elements that may be None: equality and membership only (None is not ordered)
+   THEN << CmpC("eq", f, LitNone), CmpC("ne", f, LitI(0)), CmpC("eq", f, At(x, "n")), InC(f, LitL(<<0, 2>>), "in_"),
+           CmpC("ne", f, LitNone) >>      \* (not the flatten node itself in condition position: section 5)
+   ELSE IF kind = "int"
    THEN << CmpC("eq", f, LitI(0)), CmpC("ge", f, LitI(1)), CmpC("eq", f, At(x, "n")), CmpC("lt", f, At(x, "m")),
            InC(f, LitL(<<0, 2>>), "in_"), CmpC("ne", f, LitI(2)), CmpC("gt", At(x, "n"), f) >>
    ELSE << CmpC("eq", At(f, "n"), LitI(0)), CmpC("ne", f, x), CmpC("lt", At(f, "n"), At(x, "m")),
@@ -171,6 +177,9 @@ LeavesG7c ==
      InC(At(y, "n"), Concat(At(x, "n")), "in_"),
      InC(y, Concat(At(x, "ref")), "in_"),
      InC(At(y, "t"), Concat(At(x, "pairs")), "in_"),        \* inner elements that are themselves iterable stay whole
+     \* a scalar that may be None counts as one element, None included
+     InC(At(y, "o"), Concat(At(x, "o")), "in_"),
+     InC(At(y, "n"), Concat(At(x, "o")), "in_"),
      \* concatenate(flatten(x.pairs)): the flattened elements are themselves collections, their elements are joined
      InC(At(y, "n"), Concat(Flat(1)), "in_"),
      InC(At(y, "m"), Concat(Flat(1)), "contains"),
